@@ -109,6 +109,17 @@ impl<'r> Gen<'r> {
     }
 
     fn rand_shape(&mut self) -> Vec<usize> {
+        // now and then a long innermost dimension: vectorised kernels take their unrolled main loops, and
+        // reductions sum hundreds of contiguous elements (shorter lanes only ever reach the scalar tails)
+        if self.r.chance(1, 24) {
+            // (rarely long enough for kernels that switch to parallel reductions above a size threshold)
+            let long = if self.r.chance(1, 12) { 40_000 } else { *self.r.pick(&[257usize, 300, 520, 777, 1030]) };
+            return match self.r.below(3) {
+                0 => vec![long],
+                1 => vec![*self.r.pick(&[1usize, 2, 3]), long],
+                _ => vec![long, *self.r.pick(&[1usize, 2, 3])],
+            };
+        }
         let rank = *self.r.pick(&[1usize, 1, 2, 2, 2, 3, 3, 4]);
         let big = self.r.chance(1, 3);
         (0..rank).map(|_| if big { *self.r.pick(&[1usize, 2, 3, 4, 6, 8]) } else { *self.r.pick(&[1usize, 1, 2, 2, 3, 4]) }).collect()
@@ -169,6 +180,12 @@ impl<'r> Gen<'r> {
 
     fn emit(&mut self, s: &mut Scope, op: &str, inputs: &[&str], ty: Ty, shape: Vec<usize>, attrs: Vec<(&str, Attr)>) -> Val {
         let out = self.fresh("v");
+        // Broadcasting two long values against each other (e.g. [1, 40000] with [1, 40000, 1]) would ask
+        // for billions of elements: such an operator is not emitted (the value it would have produced is
+        // not offered to later operators either; a caller that still names it gets a model that does not load).
+        if shape.iter().product::<usize>() > (1 << 20) {
+            return Val { name: out, ty, shape };
+        }
         let mut n = Node::new(op, inputs, &[out.as_str()]).named(&self.fresh("n"));
         for (k, a) in attrs {
             n = n.attr(k, a);
@@ -405,7 +422,9 @@ impl<'r> Gen<'r> {
                 // MatMul / Gemm against a constant weight (prepacking applies)
                 let Some(x) = self.pick_val(s, |v| v.ty == Ty::F && v.shape.len() >= 2 && v.numel() > 0) else { return false };
                 let k = *x.shape.last().unwrap();
-                let n = *self.r.pick(&[1usize, 2, 3, 5, 8]);
+                // a long depth dimension gets a wide weight matrix now and then: several depth blocks with a
+                // partial last one, and several column blocks once the pool has more than one thread
+                let n = if k >= 257 && k <= 2000 && self.r.bool() { *self.r.pick(&[256usize, 300, 512]) } else { *self.r.pick(&[1usize, 2, 3, 5, 8]) };
                 if k == 20 || x.shape.len() != 2 || self.r.bool() {
                     let w = self.add_const(s, Ty::F, &[k, n]);
                     let mut shape = x.shape.clone();
